@@ -441,7 +441,8 @@ def width_selection(ck, fb):
                         r2 = unwrap(strip_casts(p2[2]))
                         if isinstance(r2, dict) and ((r2.get("k") == "call" and r2.get("pn") == "std::numeric_limits::max" and r2.get("cc") == "std::numeric_limits<unsigned char>") or (r2.get("k") == "lit" and r2.get("v") == 255)):
                             fits = True
-            ok = any(("(%s == %s)" % (vmin[0], vmax[0])) in hcn.s(c2) or ("(%s == %s)" % (vmax[0], vmin[0])) in hcn.s(c2) for c2 in conds) and fits
+            from .canon import ceq
+            ok = any(ceq(vmin[0], vmax[0]) in hcn.s(c2) for c2 in conds) and fits
             (ck.ok if ok else lambda r_, w_, t: ck.violate(r_, w_, t, "C06.width:fixedvalence"))("C06.width", h.where, "a fixed valence is only used when all valences agree and fit the one-byte header field")
     ck.floor("start_topo_chunk_instantiations", n_ok, 1)
 
